@@ -258,70 +258,33 @@ Lemma mdns_nonvacuous :
 Proof. split; vm_compute; reflexivity. Qed.
 
 (* ---------------------------------------------------------------- NBNS node name array *)
-Lemma be16_at_panic s a : (cap s < a + 2)%nat -> be16_at s a = Panic.
-Proof. intros H. unfold be16_at. destruct (Nat.leb_spec (a + 2) (cap s)); [lia|reflexivity]. Qed.
-
-Lemma node_names_ok n : forall i b have, (16 <= cap b)%nat -> (18 * (i + n) <= cap b)%nat ->
+Lemma node_names_ok n : forall i b have, (18 * (i + n) <= cap b)%nat ->
   exists v, node_names n i b have = Ok v.
 Proof.
-  induction n as [|n IH]; intros i b have H16 H; cbn [node_names]; [eauto|].
+  induction n as [|n IH]; intros i b have H; cbn [node_names]; [eauto|].
   rewrite be16_at_ok by lia. cbn [bind].
   destruct (N.land _ 32768 =? 0).
-  - rewrite sl_ok by lia. cbn [bind]. apply IH; [assumption|lia].
-  - apply IH; [assumption|lia].
+  - rewrite sl_ok by lia. cbn [bind]. apply IH; lia.
+  - apply IH; lia.
 Qed.
 
-Lemma node_names_panic n : forall i b have, (0 < n)%nat -> (16 <= cap b)%nat ->
-  (cap b < 18 * (i + n))%nat -> node_names n i b have = Panic.
+Theorem node_status_total b : wf b -> safe (node_status_response b).
 Proof.
-  induction n as [|n IH]; intros i b have Hn H16 H; [lia|]. cbn [node_names].
-  destruct (Nat.le_gt_cases (18 * i + 16 + 2) (cap b)) as [Hle|Hgt].
-  - rewrite be16_at_ok by lia. cbn [bind].
-    assert (0 < n)%nat by lia.
-    destruct (N.land _ 32768 =? 0).
-    + rewrite sl_ok by lia. cbn [bind]. apply IH; [assumption|assumption|lia].
-    + apply IH; [assumption|assumption|lia].
-  - rewrite be16_at_panic by lia. reflexivity.
-Qed.
-
-Lemma node_status_safe b : wf b -> known_C08_nbns_array b = false -> safe (node_status_response b).
-Proof.
-  intros Hw Hk. unfold node_status_response, parse_node_name_array, known_C08_nbns_array in *.
+  intros Hw. unfold node_status_response, parse_node_name_array.
   destruct (Nat.ltb_spec (len b) 3); [sdone|].
   destruct (Nat.ltb_spec (len b) 1); [lia|].
   rewrite idx_ok by lia. cbn [bind]. rewrite slfrom_ok by lia. cbn [bind len].
-  set (n := N.to_nat (nth 0 (arr b) 0)) in *.
-  destruct (Nat.ltb_spec (len b - 1) (n * 16 + 2)); [sdone|].
-  clearbody n.
-  destruct (Nat.eq_dec n 0) as [->|Hn0]; [cbn [node_names]; sdone|].
+  set (n := N.to_nat (nth 0 (arr b) 0)) in *. clearbody n.
+  destruct (Nat.ltb_spec (len b - 1) (n * 18)); [sdone|].
   destruct (node_names_ok n 0 (mkSlice (skipn 1 (arr b)) (len b - 1)) false) as [v Hv].
-  - unfold cap; cbn [arr]. rewrite skipn_length. unfold wf, cap in Hw. lia.
   - unfold wf, cap in *; cbn [arr]. rewrite skipn_length. lia.
   - rewrite Hv. sdone.
-Qed.
-
-Lemma node_status_panic b : wf b -> known_C08_nbns_array b = true -> node_status_response b = Panic.
-Proof.
-  intros Hw Hk. unfold node_status_response, parse_node_name_array, known_C08_nbns_array in *.
-  set (n := N.to_nat (nth 0 (arr b) 0)) in *.
-  destruct (Nat.ltb_spec (len b) 3); [lia|].
-  destruct (Nat.ltb_spec (len b) 1); [lia|].
-  rewrite idx_ok by lia. cbn [bind]. rewrite slfrom_ok by lia. cbn [bind len]. fold n.
-  destruct (Nat.ltb_spec (len b - 1) (n * 16 + 2)); [lia|].
-  clearbody n.
-  apply node_names_panic.
-  - unfold wf, cap in *. lia.
-  - unfold wf, cap in *; cbn [arr]. rewrite skipn_length. lia.
-  - unfold cap in *; cbn [arr]. rewrite skipn_length. lia.
 Qed.
 
 (* ---------------------------------------------------------------- NBNS loop *)
 Section NBNS.
   Variable m : dmsg.
   Let n := List.length (m_recs m).
-
-  Definition arrays_ok : Prop :=
-    forall r, In r (m_recs m) -> r_type r = 33 -> known_C08_nbns_array (of_bytes (r_data r)) = false.
 
   Lemma of_bytes_wf l : wf (of_bytes l).
   Proof. unfold wf, of_bytes, cap; cbn. lia. Qed.
@@ -345,28 +308,17 @@ Section NBNS.
       rewrite pstate_eqb_refl in Hne. discriminate.
   Qed.
 
-  Lemma nbns_stop_safe : arrays_ok -> forall st r, True -> nbns_step m st = Stop r -> safe r.
+  Lemma nbns_stop_safe : forall st r, True -> nbns_step m st = Stop r -> safe r.
   Proof.
-    intros Harr st r _. unfold nbns_step.
+    intros st r _. unfold nbns_step.
     destruct (resource_header m st secAnswers) as [st1 [e|r0]] eqn:Eh.
     { destruct e; intros H; injection H as <-; sdone. }
     apply resource_header_rec in Eh. destruct Eh as [H1 Hn].
     destruct (r_type r0 =? 33) eqn:Et; [|discriminate].
     destruct (unknown_resource m st1) as [st2 [e|]]; [intros H; injection H as <-; sdone|].
-    apply nth_error_In in Hn. apply N.eqb_eq in Et.
-    pose proof (node_status_safe _ (of_bytes_wf (r_data r0)) (Harr r0 Hn Et)) as [Hp Hf].
+    pose proof (node_status_total _ (of_bytes_wf (r_data r0))) as [Hp Hf].
     destruct (node_status_response (of_bytes (r_data r0))) as [[|]| | |]; try congruence;
       try discriminate; intros H; injection H as <-; sdone.
-  Qed.
-
-  Lemma arrays_ok_of_existsb :
-    existsb (fun r => (r_type r =? 33) && known_C08_nbns_array (of_bytes (r_data r))) (m_recs m) = false ->
-    arrays_ok.
-  Proof.
-    intros H r Hin Ht. destruct (known_C08_nbns_array (of_bytes (r_data r))) eqn:Ek; [|reflexivity].
-    assert (existsb (fun r => (r_type r =? 33) && known_C08_nbns_array (of_bytes (r_data r))) (m_recs m) = true).
-    { apply existsb_exists. exists r. split; [assumption|]. rewrite Ht, Ek. reflexivity. }
-    congruence.
   Qed.
 
   Theorem process_nbns_partial valid : known_C08_nbns valid m = NNone ->
@@ -379,10 +331,8 @@ Section NBNS.
     destruct (m_skipq_ok m); cbn [negb andb] in *; [|sdone].
     fold n in Hk.
     destruct (spins (nbns_step m) pstate_eqb (2 * n + 4) start_state) eqn:Es; [discriminate|].
-    destruct (existsb _ (m_recs m)) eqn:Ee; [discriminate|].
-    apply arrays_ok_of_existsb in Ee.
     eapply (iter_total (nbns_step m) pstate_eqb pstate_eqb_eq (pmu m) (fun _ => True)
-              (fun _ _ _ _ => I) nbns_step_dec (nbns_stop_safe Ee) (2 * n + 4)); try eassumption; try exact I.
+              (fun _ _ _ _ => I) nbns_step_dec nbns_stop_safe (2 * n + 4)); try eassumption; try exact I.
     unfold pmu, start_state; cbn [p_pos p_valid]. fold n. lia.
   Qed.
 
@@ -398,9 +348,6 @@ End NBNS.
 
 Definition nbns_w_name_answer : dmsg := mkMsg true true true 1 0 0 [mkRec true 32 false true true []].
 Definition nbns_w_unknown_answer : dmsg := mkMsg true true true 1 0 0 [mkRec true 1 true true true [192;168;0;1]].
-(* node status answer with two names in 35 bytes: 16n+2 = 34 <= 34, 18n = 36 > 34 *)
-Definition nbns_array_w : bytes := 2 :: repeat 65 34.
-Definition nbns_w_array : dmsg := mkMsg true true true 1 0 0 [mkRec true 33 false true true nbns_array_w].
 Definition nbns_w_good : dmsg :=
   mkMsg true true true 1 0 0 [mkRec true 33 false true true (1 :: repeat 65 15 ++ [32; 4; 0] ++ repeat 0 46)].
 
@@ -408,11 +355,6 @@ Lemma nbns_refuted_name_answer : forall fuel, process_nbns fuel true nbns_w_name
 Proof. intros fuel. eapply process_nbns_spins; reflexivity. Qed.
 Lemma nbns_refuted_unknown_answer : forall fuel, process_nbns fuel true nbns_w_unknown_answer = Fuel.
 Proof. intros fuel. eapply process_nbns_spins; reflexivity. Qed.
-Lemma nbns_refuted_array :
-  bytes_ok nbns_array_w /\ known_C08_nbns_array (of_bytes nbns_array_w) = true /\
-  node_status_response (of_bytes nbns_array_w) = Panic /\
-  known_C08_nbns true nbns_w_array = NArray /\ process_nbns 10 true nbns_w_array = Panic.
-Proof. split; [apply bytes_okb_spec; reflexivity|]. repeat split; vm_compute; reflexivity. Qed.
 Lemma nbns_nonvacuous :
   known_C08_nbns true nbns_w_good = NNone /\ process_nbns 10 true nbns_w_good = Ok tt.
 Proof. split; vm_compute; reflexivity. Qed.
